@@ -45,6 +45,11 @@
 (*                     without re-checking: simultaneous first connections *)
 (*                     of one UID each get their own record, the last      *)
 (*                     store wins                                          *)
+(*   CloseAfterUnlock  (never in the code; a seeded change) CloseSession    *)
+(*                     removes the session from the table under sessionsM  *)
+(*                     but closes it after the unlock (pc "cc", schedule   *)
+(*                     point "closing"): meanwhile a still open session is *)
+(*                     neither counted nor findable                        *)
 (*   NoQueueReset      (model mutant, never in the code) commitUpdate      *)
 (*                     forgets to reset the queue - shows NeverMore can    *)
 (*                     fail                                                *)
@@ -69,7 +74,7 @@ CONSTANTS
   MaxAdmin,
   Dev
 
-DevAll == {"PanelLockOrderAQ", "UserLookupGap", "StaleTerminate", "GetUserCheckThenAct", "NoQueueReset"}
+DevAll == {"PanelLockOrderAQ", "UserLookupGap", "StaleTerminate", "GetUserCheckThenAct", "CloseAfterUnlock", "NoQueueReset"}
 ASSUME Dev \subseteq DevAll
 
 Users  == 1..NU
@@ -115,6 +120,7 @@ VARIABLES
   tpend,    \* result of valve.Nullify() in updateUsageQueueForOne, not yet in the queue
   ploop,    \* commitUpdate: UIDs whose queue entry the loop has already passed
   pwait,    \* commitUpdate: the record whose sessionsM the loop is waiting for (user.NumSession), 0 = none
+  pclo,     \* CloseSession with CloseAfterUnlock: the session removed from the table and still to be closed
   pin, pstat, \* commitUpdate: UIDs / usage of the statuses snapshot
   presp,    \* commitUpdate: UIDs of the TERMINATE responses still to act on
   pres,     \* outcome of a Conn
@@ -140,7 +146,7 @@ VARIABLES
   badStart, \* ghost: a session was created for a user without credit / expired / deleted
   ntraffic, nadmin
 
-ProcV  == <<pc, op, prec, prem, trec, tpend, ploop, pwait, pin, pstat, presp, pres>>
+ProcV  == <<pc, op, prec, prem, trec, tpend, ploop, pwait, pclo, pin, pstat, presp, pres>>
 LockV  == <<aw, qh, sh>>
 RecV   == <<active, nrec, ruid, rsess, rvalve, rterm>>
 ObjV   == <<nobj, ouid, orec, osid, okey, olive>>
@@ -153,6 +159,7 @@ AQ     == "PanelLockOrderAQ" \in Dev
 Gap    == "UserLookupGap" \in Dev
 Stale  == "StaleTerminate" \in Dev
 CTA    == "GetUserCheckThenAct" \in Dev
+CAU    == "CloseAfterUnlock" \in Dev
 
 \* a goroutine at its first position has not done anything yet; one at "srv" is serving a session and
 \* is not inside a bookkeeping operation
@@ -183,7 +190,7 @@ Init ==
   /\ pc = [p \in Procs |-> FirstPc(op[p].k)]
   /\ prec = [p \in Procs |-> IF op[p].k = "serve" THEN op[p].u ELSE 0] /\ prem = [p \in Procs |-> 0] /\ trec = [p \in Procs |-> 0]
   /\ tpend = [p \in Procs |-> Z]
-  /\ ploop = [p \in Procs |-> {}] /\ pwait = [p \in Procs |-> 0]
+  /\ ploop = [p \in Procs |-> {}] /\ pwait = [p \in Procs |-> 0] /\ pclo = [p \in Procs |-> 0]
   /\ pin = [p \in Procs |-> {}] /\ pstat = [p \in Procs |-> [u \in Users |-> Z]]
   /\ presp = [p \in Procs |-> <<>>] /\ pres = [p \in Procs |-> NoRes]
   /\ aw = 0 /\ qh = 0 /\ sh = [r \in Recs |-> 0]
@@ -227,6 +234,7 @@ Ready(p) ==
     [] pc[p] = "miss" -> TRUE
     [] pc[p] = "fail" -> sh[prec[p]] = 0
     [] pc[p] = "srv"  -> sh[prec[p]] = 0
+    [] pc[p] = "cc"   -> TRUE
     [] pc[p] = "cu"   -> TRUE
     [] pc[p] = "t1n"  -> TRUE
     [] pc[p] = "t1q"  -> qh = 0
@@ -273,7 +281,7 @@ ConnGetUser(p) ==
               /\ UNCHANGED pres
          ELSE /\ pres' = [pres EXCEPT ![p] = [t |-> "unauth", o |-> 0]] /\ Goto(p, "done")
               /\ UNCHANGED <<active, nrec, ruid, prec>>
-  /\ UNCHANGED <<op, prem, trec, tpend, ploop, pwait, pin, pstat, presp, LockV, rsess, rvalve, rterm, ObjV, QueueV, DbV, GhostV>>
+  /\ UNCHANGED <<op, prem, trec, tpend, ploop, pwait, pclo, pin, pstat, presp, LockV, rsess, rvalve, rterm, ObjV, QueueV, DbV, GhostV>>
 
 \* GetUser with the deviation GetUserCheckThenAct: look-up (A.RLock) / AuthenticateUser (no lock; the harness can park
 \* the caller inside it: pc "ga") / store (A.Lock, no re-check)
@@ -282,14 +290,14 @@ ConnGetUserLookup(p) ==
   /\ pc[p] = "gu" /\ Ready(p) /\ CTA
   /\ IF r # 0 THEN prec' = [prec EXCEPT ![p] = r] /\ Goto(p, "gs")
               ELSE UNCHANGED prec /\ Goto(p, "ga")
-  /\ UNCHANGED <<op, prem, trec, tpend, ploop, pwait, pin, pstat, presp, pres, LockV, RecV, ObjV, QueueV, DbV, GhostV>>
+  /\ UNCHANGED <<op, prem, trec, tpend, ploop, pwait, pclo, pin, pstat, presp, pres, LockV, RecV, ObjV, QueueV, DbV, GhostV>>
 
 ConnGetUserAuth(p) ==
   /\ pc[p] = "ga"
   /\ IF Auth(op[p].u) /\ nrec < MaxRec
        THEN Goto(p, "gi") /\ UNCHANGED pres
        ELSE pres' = [pres EXCEPT ![p] = [t |-> "unauth", o |-> 0]] /\ Goto(p, "done")
-  /\ UNCHANGED <<op, prec, prem, trec, tpend, ploop, pwait, pin, pstat, presp, LockV, RecV, ObjV, QueueV, DbV, GhostV>>
+  /\ UNCHANGED <<op, prec, prem, trec, tpend, ploop, pwait, pclo, pin, pstat, presp, LockV, RecV, ObjV, QueueV, DbV, GhostV>>
 
 ConnGetUserStore(p) ==
   LET u == op[p].u  cur == active[u]  r == nrec + 1 IN
@@ -299,7 +307,7 @@ ConnGetUserStore(p) ==
   /\ active' = [active EXCEPT ![u] = r]
   /\ rwhy' = IF cur # 0 THEN [rwhy EXCEPT ![cur] = "getuser-check-then-act"] ELSE rwhy
   /\ prec' = [prec EXCEPT ![p] = r] /\ Goto(p, "gs")
-  /\ UNCHANGED <<op, prem, trec, tpend, ploop, pwait, pin, pstat, presp, pres, LockV, rsess, rvalve, rterm, ObjV, QueueV, DbV,
+  /\ UNCHANGED <<op, prem, trec, tpend, ploop, pwait, pclo, pin, pstat, presp, pres, LockV, rsess, rvalve, rterm, ObjV, QueueV, DbV,
                  carried, charged, dropped, topups, cut, everTerm, owhy, badStart, ntraffic, nadmin>>
 
 \* ActiveUser.GetSession: lock S, look the session up
@@ -312,7 +320,7 @@ ConnLookup(p) ==
        ELSE IF rsess[r][s] # 0
          THEN /\ pres' = [pres EXCEPT ![p] = [t |-> "hit", o |-> rsess[r][s]]] /\ Goto(p, "done") /\ UNCHANGED sh
          ELSE /\ sh' = [sh EXCEPT ![r] = p] /\ Goto(p, "miss") /\ UNCHANGED pres
-  /\ UNCHANGED <<op, prec, prem, trec, tpend, ploop, pwait, pin, pstat, presp, aw, qh, RecV, ObjV, QueueV, DbV, GhostV>>
+  /\ UNCHANGED <<op, prec, prem, trec, tpend, ploop, pwait, pclo, pin, pstat, presp, aw, qh, RecV, ObjV, QueueV, DbV, GhostV>>
 
 \* ... AuthoriseNewSession(NumExisting = len(sessions)), MakeSession with this connection's key, unlock
 ConnCreate(p) ==
@@ -331,7 +339,7 @@ ConnCreate(p) ==
             /\ Goto(p, IF op[p].k = "connr" THEN "srv" ELSE "done")
        ELSE /\ pres' = [pres EXCEPT ![p] = [t |-> "refused", o |-> 0]] /\ Goto(p, "fail")
             /\ UNCHANGED <<ObjV, rsess, owhy, badStart>>
-  /\ UNCHANGED <<op, prec, prem, trec, tpend, ploop, pwait, pin, pstat, presp, aw, qh, active, nrec, ruid, rvalve, rterm, QueueV, DbV,
+  /\ UNCHANGED <<op, prec, prem, trec, tpend, ploop, pwait, pclo, pin, pstat, presp, aw, qh, active, nrec, ruid, rvalve, rterm, QueueV, DbV,
                  carried, charged, dropped, topups, cut, everTerm, rwhy, ntraffic, nadmin>>
 
 -----------------------------------------------------------------------------
@@ -352,9 +360,35 @@ CloseCS(p, r, s) ==
   /\ Goto(p, "cu")
 
 CloseStep(p) ==
-  /\ pc[p] \in {"srv", "fail"} /\ Ready(p)
+  /\ pc[p] \in {"srv", "fail"} /\ Ready(p) /\ ~CAU
   /\ CloseCS(p, prec[p], op[p].s)
-  /\ UNCHANGED <<op, prec, trec, tpend, ploop, pwait, pin, pstat, presp, pres, LockV, active, nrec, ruid, rterm,
+  /\ UNCHANGED <<op, prec, trec, tpend, ploop, pwait, pclo, pin, pstat, presp, pres, LockV, active, nrec, ruid, rterm,
+                 nobj, ouid, orec, osid, okey, QueueV, DbV,
+                 charged, dropped, topups, cut, everTerm, owhy, rwhy, badStart, ntraffic, nadmin>>
+
+\* CloseSession with the deviation CloseAfterUnlock: the critical section only removes the session from the table ...
+CloseRemove(p) ==
+  LET r == prec[p]  s == op[p].s  o == rsess[r][s] IN
+  /\ pc[p] \in {"srv", "fail"} /\ Ready(p) /\ CAU
+  /\ rsess' = [rsess EXCEPT ![r][s] = 0]
+  /\ prem' = [prem EXCEPT ![p] = Cardinality(Entries(r) \ {s})]
+  /\ pclo' = [pclo EXCEPT ![p] = o]
+  /\ owhy' = IF o # 0 /\ olive[o] THEN [owhy EXCEPT ![o] = "close-after-unlock"] ELSE owhy
+  /\ Goto(p, "cc")
+  /\ UNCHANGED <<op, prec, trec, tpend, ploop, pwait, pin, pstat, presp, pres, LockV, active, nrec, ruid, rvalve, rterm, ObjV, QueueV, DbV,
+                 carried, charged, dropped, topups, cut, everTerm, rwhy, badStart, ntraffic, nadmin>>
+
+\* ... and SetTerminalMsg / Session.Close follow without the lock
+CloseFinish(p) ==
+  LET r == prec[p]  o == pclo[p]  u == ruid[r]
+      n == IF o # 0 /\ olive[o] THEN {o} ELSE {} IN
+  /\ pc[p] = "cc"
+  /\ olive' = IF o # 0 THEN [olive EXCEPT ![o] = FALSE] ELSE olive
+  /\ rvalve' = [rvalve EXCEPT ![r].nt = @ \cup n]
+  /\ carried' = [carried EXCEPT ![u].nt = @ \cup n]
+  /\ pclo' = [pclo EXCEPT ![p] = 0]
+  /\ Goto(p, "cu")
+  /\ UNCHANGED <<op, prec, prem, trec, tpend, ploop, pwait, pin, pstat, presp, pres, LockV, active, nrec, ruid, rsess, rterm,
                  nobj, ouid, orec, osid, okey, QueueV, DbV,
                  charged, dropped, topups, cut, everTerm, owhy, rwhy, badStart, ntraffic, nadmin>>
 
@@ -373,7 +407,7 @@ CloseDecide(p) ==
   /\ IF prem[p] = 0
        THEN Nullify(p, r)
        ELSE Goto(p, "done") /\ UNCHANGED <<tpend, rvalve, trec, everTerm>>
-  /\ UNCHANGED <<op, prec, prem, ploop, pwait, pin, pstat, presp, pres, LockV, active, nrec, ruid, rsess, rterm, ObjV, QueueV, DbV,
+  /\ UNCHANGED <<op, prec, prem, ploop, pwait, pclo, pin, pstat, presp, pres, LockV, active, nrec, ruid, rsess, rterm, ObjV, QueueV, DbV,
                  carried, charged, dropped, topups, cut, owhy, rwhy, badStart, ntraffic, nadmin>>
 
 -----------------------------------------------------------------------------
@@ -382,7 +416,7 @@ CloseDecide(p) ==
 TermNullify(p) ==
   /\ pc[p] = "t1n"
   /\ Nullify(p, trec[p])
-  /\ UNCHANGED <<op, prec, prem, ploop, pwait, pin, pstat, presp, pres, LockV, active, nrec, ruid, rsess, rterm, ObjV, QueueV, DbV,
+  /\ UNCHANGED <<op, prec, prem, ploop, pwait, pclo, pin, pstat, presp, pres, LockV, active, nrec, ruid, rsess, rterm, ObjV, QueueV, DbV,
                  carried, charged, dropped, topups, cut, owhy, rwhy, badStart, ntraffic, nadmin>>
 
 TermQueue(p) ==
@@ -392,7 +426,7 @@ TermQueue(p) ==
   /\ qin' = qin \cup {u}
   /\ tpend' = [tpend EXCEPT ![p] = Z]
   /\ Goto(p, "t2")
-  /\ UNCHANGED <<op, prec, prem, trec, ploop, pwait, pin, pstat, presp, pres, LockV, RecV, ObjV, DbV, GhostV>>
+  /\ UNCHANGED <<op, prec, prem, trec, ploop, pwait, pclo, pin, pstat, presp, pres, LockV, RecV, ObjV, DbV, GhostV>>
 
 TermCloseAll(p) ==
   LET r == trec[p]
@@ -406,7 +440,7 @@ TermCloseAll(p) ==
   /\ carried' = [carried EXCEPT ![u].nt = @ \cup n]
   /\ rterm' = [rterm EXCEPT ![r] = TRUE]
   /\ Goto(p, "t3")
-  /\ UNCHANGED <<op, prec, prem, trec, tpend, ploop, pwait, pin, pstat, presp, pres, LockV, active, nrec, ruid,
+  /\ UNCHANGED <<op, prec, prem, trec, tpend, ploop, pwait, pclo, pin, pstat, presp, pres, LockV, active, nrec, ruid,
                  nobj, ouid, orec, osid, okey, QueueV, DbV,
                  charged, dropped, topups, cut, everTerm, owhy, rwhy, badStart, ntraffic, nadmin>>
 
@@ -420,7 +454,7 @@ TermDelete(p) ==
             /\ rwhy' = IF cur # 0 /\ cur # r THEN [rwhy EXCEPT ![cur] = "stale-terminate"] ELSE rwhy
        ELSE UNCHANGED <<active, rwhy>>
   /\ IF op[p].k = "commit" /\ presp[p] # <<>> THEN Goto(p, "mr") ELSE Goto(p, "done")
-  /\ UNCHANGED <<op, prec, prem, trec, tpend, ploop, pwait, pin, pstat, presp, pres, LockV, nrec, ruid, rsess, rvalve, rterm, ObjV, QueueV, DbV,
+  /\ UNCHANGED <<op, prec, prem, trec, tpend, ploop, pwait, pclo, pin, pstat, presp, pres, LockV, nrec, ruid, rsess, rvalve, rterm, ObjV, QueueV, DbV,
                  carried, charged, dropped, topups, cut, everTerm, owhy, badStart, ntraffic, nadmin>>
 
 -----------------------------------------------------------------------------
@@ -430,13 +464,13 @@ UpdLock1(p) ==
   /\ pc[p] = "u1" /\ Ready(p)
   /\ IF AQ THEN aw' = p /\ UNCHANGED qh ELSE qh' = p /\ UNCHANGED aw
   /\ Goto(p, "u2")
-  /\ UNCHANGED <<op, prec, prem, trec, tpend, ploop, pwait, pin, pstat, presp, pres, sh, RecV, ObjV, QueueV, DbV, GhostV>>
+  /\ UNCHANGED <<op, prec, prem, trec, tpend, ploop, pwait, pclo, pin, pstat, presp, pres, sh, RecV, ObjV, QueueV, DbV, GhostV>>
 
 UpdLock2(p) ==
   /\ pc[p] = "u2" /\ Ready(p)
   /\ IF AQ THEN qh' = p /\ UNCHANGED aw ELSE aw' = p /\ UNCHANGED qh
   /\ Goto(p, "u3")
-  /\ UNCHANGED <<op, prec, prem, trec, tpend, ploop, pwait, pin, pstat, presp, pres, sh, RecV, ObjV, QueueV, DbV, GhostV>>
+  /\ UNCHANGED <<op, prec, prem, trec, tpend, ploop, pwait, pclo, pin, pstat, presp, pres, sh, RecV, ObjV, QueueV, DbV, GhostV>>
 
 UpdBody(p) ==
   LET au == {u \in Users : active[u] # 0} IN
@@ -446,14 +480,14 @@ UpdBody(p) ==
   /\ rvalve' = [r \in Recs |-> IF \E u \in au : active[u] = r THEN Z ELSE rvalve[r]]
   /\ aw' = 0 /\ qh' = 0
   /\ Goto(p, "done")
-  /\ UNCHANGED <<op, prec, prem, trec, tpend, ploop, pwait, pin, pstat, presp, pres, sh, active, nrec, ruid, rsess, rterm, ObjV, DbV, GhostV>>
+  /\ UNCHANGED <<op, prec, prem, trec, tpend, ploop, pwait, pclo, pin, pstat, presp, pres, sh, active, nrec, ruid, rsess, rterm, ObjV, DbV, GhostV>>
 
 -----------------------------------------------------------------------------
 (* commitUpdate                                                            *)
 ComLock(p) ==
   /\ pc[p] = "m1" /\ Ready(p)
   /\ qh' = p /\ Goto(p, "m2")
-  /\ UNCHANGED <<op, prec, prem, trec, tpend, ploop, pwait, pin, pstat, presp, pres, aw, sh, RecV, ObjV, QueueV, DbV, GhostV>>
+  /\ UNCHANGED <<op, prec, prem, trec, tpend, ploop, pwait, pclo, pin, pstat, presp, pres, aw, sh, RecV, ObjV, QueueV, DbV, GhostV>>
 
 \* one entry of the loop: passed, or found with its record's sessionsM held (then the loop waits for that record)
 ComLoop(p) ==
@@ -466,7 +500,7 @@ ComLoop(p) ==
               IF r # 0 /\ sh[r] # 0
                 THEN pwait' = [pwait EXCEPT ![p] = r] /\ ploop' = [ploop EXCEPT ![p] = @ \cup {u}]
                 ELSE ploop' = [ploop EXCEPT ![p] = @ \cup {u}] /\ UNCHANGED pwait
-  /\ UNCHANGED <<op, prec, prem, trec, tpend, pin, pstat, presp, pres, LockV, RecV, ObjV, QueueV, DbV, GhostV>>
+  /\ UNCHANGED <<op, prec, prem, trec, tpend, pclo, pin, pstat, presp, pres, LockV, RecV, ObjV, QueueV, DbV, GhostV>>
 
 \* after the loop: the statuses, the reset of the queue, the unlock
 ComSnapshot(p) ==
@@ -478,7 +512,7 @@ ComSnapshot(p) ==
      ELSE queue' = [u \in Users |-> Z] /\ qin' = {}
   /\ qh' = 0
   /\ Goto(p, "m3")
-  /\ UNCHANGED <<op, prec, prem, trec, tpend, pwait, presp, pres, aw, sh, RecV, ObjV, DbV, GhostV>>
+  /\ UNCHANGED <<op, prec, prem, trec, tpend, pwait, pclo, presp, pres, aw, sh, RecV, ObjV, DbV, GhostV>>
 
 \* Manager.UploadStatus: one transaction over all statuses
 RECURSIVE RespSeq(_, _)
@@ -503,7 +537,7 @@ ComUpload(p) ==
   /\ pin' = [pin EXCEPT ![p] = {}]
   /\ pstat' = [pstat EXCEPT ![p] = [u \in Users |-> Z]]
   /\ IF tu = {} THEN Goto(p, "done") ELSE Goto(p, "mr")
-  /\ UNCHANGED <<op, prec, prem, trec, tpend, ploop, pwait, pres, LockV, RecV, ObjV, QueueV, dbx, dbe,
+  /\ UNCHANGED <<op, prec, prem, trec, tpend, ploop, pwait, pclo, pres, LockV, RecV, ObjV, QueueV, dbx, dbe,
                  carried, topups, everTerm, owhy, rwhy, badStart, ntraffic, nadmin>>
 
 \* one TERMINATE response: look the user up under A.RLock
@@ -516,12 +550,12 @@ ComResp(p) ==
   /\ IF r # 0
        THEN trec' = [trec EXCEPT ![p] = r] /\ Goto(p, "t1n")
        ELSE UNCHANGED trec /\ (IF rest = <<>> THEN Goto(p, "done") ELSE Goto(p, "mr"))
-  /\ UNCHANGED <<op, prec, prem, tpend, ploop, pwait, pin, pstat, pres, LockV, RecV, ObjV, QueueV, DbV, GhostV>>
+  /\ UNCHANGED <<op, prec, prem, tpend, ploop, pwait, pclo, pin, pstat, pres, LockV, RecV, ObjV, QueueV, DbV, GhostV>>
 
 -----------------------------------------------------------------------------
 Step(p) ==
   \/ ConnGetUser(p) \/ ConnGetUserLookup(p) \/ ConnGetUserAuth(p) \/ ConnGetUserStore(p) \/ ConnLookup(p) \/ ConnCreate(p)
-  \/ CloseStep(p) \/ CloseDecide(p)
+  \/ CloseStep(p) \/ CloseRemove(p) \/ CloseFinish(p) \/ CloseDecide(p)
   \/ TermNullify(p) \/ TermQueue(p) \/ TermCloseAll(p) \/ TermDelete(p)
   \/ UpdLock1(p) \/ UpdLock2(p) \/ UpdBody(p)
   \/ ComLock(p) \/ ComLoop(p) \/ ComSnapshot(p) \/ ComUpload(p) \/ ComResp(p)
@@ -568,7 +602,7 @@ TypeOK ==
   /\ \A r \in Recs : sh[r] \in 0..NP
   /\ nrec \in 0..MaxRec /\ nobj \in 0..MaxObj
   /\ \A u \in Users : active[u] \in 0..nrec
-  /\ \A p \in Procs : pc[p] \in {"idle", "done", "gu", "ga", "gi", "gs", "miss", "fail", "srv", "cu", "t1n", "t1q", "t2", "t3",
+  /\ \A p \in Procs : pc[p] \in {"idle", "done", "gu", "ga", "gi", "gs", "miss", "fail", "srv", "cc", "cu", "t1n", "t1q", "t2", "t3",
                                   "u1", "u2", "u3", "m1", "m2", "ml", "m3", "mr"}
   \* a lock is held by a process that is at a position where the code holds it
   /\ aw # 0 => pc[aw] \in {"u2", "u3"}
